@@ -98,6 +98,24 @@ def pool(tier, seed):
             ("Subscript1t", p.Subscript(o, (1,))), ("Lookup", p.Lookup(o, "real_part")), ("Lookup-call", p.Call(p.Lookup(o, "method"), (a,))),
             ("Call-in-arith", p.Sum((p.Call(f, (a,)), p.Product((2, p.Subscript(v, 0)))))), ("Min", p.Min((a, b, c))), ("Max", p.Max((a, p.Sum((b, 1))))),
             ("Tuple-arg", p.Call(f, ((a, b),)))]
+    # numpy scalar constants (the evaluator computes with them as they are; generated code must not depend on their repr)
+    import numpy as np
+    for cn, cv in (("float64", np.float64(0.5)), ("float32", np.float32(1.5)), ("int64", np.int64(3)), ("int32", np.int32(-2)), ("bool_", np.bool_(True)),
+                   ("complex128", np.complex128(1 + 2j)), ("neg-float64", np.float64(-2.5))):
+        out += [(f"numpy-{cn}-product", p.Product((a, cv))), (f"numpy-{cn}-sum", p.Sum((cv, b))), (f"numpy-{cn}-power-base", p.Power(cv, 2)),
+                (f"numpy-{cn}-nested", p.Sum((p.Product((cv, a)), p.Product((2, b)))))]
+        if cn != "float32":     # an inexact float32 quotient is rounded to single precision by the evaluator, to double precision by Python literals
+            out.append((f"numpy-{cn}-quotient", p.Quotient(a, cv)))
+    # complex constants, in particular negative and purely imaginary ones as a power base / a factor
+    for cn, cv in (("1j", 1j), ("-1j", -1j), ("1-2j", 1 - 2j), ("-1+0j", complex(-1, 0)), ("-0.5j", complex(0, -0.5))):
+        out += [(f"complex-{cn}-power-base", p.Power(cv, a)), (f"complex-{cn}-product", p.Product((cv, a))), (f"complex-{cn}-sum", p.Sum((a, cv))),
+                (f"complex-{cn}-quotient-den", p.Quotient(a, cv))]
+    # logical negation as an operand of arithmetic and comparison parents (its text begins with a low-precedence keyword)
+    for n1, b1 in BIN.items():
+        out += [(f"{n1}(l=Not)", b1(p.LogicalNot(q), c)), (f"{n1}(r=Not)", b1(c, p.LogicalNot(q))), (f"{n1}(l=Not-var)", b1(p.LogicalNot(a), b))]
+    out += [("Comparison(l=Not)", p.Comparison(p.LogicalNot(a), "==", b)), ("Comparison(r=Not)", p.Comparison(b, "!=", p.LogicalNot(a))), ("Not(Not)", p.LogicalNot(p.LogicalNot(a))),
+            ("Not(Sum)", p.LogicalNot(p.Sum((a, b)))), ("Neg(Not)", p.Product((-1, p.LogicalNot(a)))), ("If(cond=Not)", p.If(p.LogicalNot(a), b, c)),
+            ("And(Not, var)", p.LogicalAnd((p.LogicalNot(a), p.Comparison(b, ">", 0))))]
     rng = random.Random(seed)
     bins = list(BIN.values())
 
@@ -170,6 +188,12 @@ def same(got, want):
     import math
     if got is None:
         return False
+    # a numpy scalar and the Python number of the same value are the same result (generated code holds Python literals)
+    def _py(o):
+        if o[0] == "val" and hasattr(o[1], "item") and hasattr(o[1], "dtype") and getattr(o[1], "shape", None) == ():
+            return ("val", o[1].item())
+        return o
+    got, want = _py(got), _py(want)
     if got[0] == "val" and want[0] == "val" and type(got[1]) is float and type(want[1]) is float:
         return math.isclose(got[1], want[1], rel_tol=1e-12, abs_tol=1e-300) or (got[1] != got[1] and want[1] != want[1])
     if got[0] == "val" and want[0] == "val" and type(got[1]) is complex and type(want[1]) is complex:
